@@ -32,10 +32,14 @@ var baseResolver = &resolver{kind: 0}
 func (x *Exec) resolve(r *resolver, key string, srt Sort) Term {
 	switch r.kind {
 	case 0:
-		return x.c.Named("H0_"+key, srt)
+		t := x.c.Named("H0_"+key, srt)
+		x.c.noteOrigin(t.S, key)
+		return t
 	case 1:
 		if r.eff.matches(key) {
-			return x.c.Named("Hh_"+r.tag+"_"+key, srt)
+			t := x.c.Named("Hh_"+r.tag+"_"+key, srt)
+			x.c.noteOrigin(t.S, key)
+			return t
 		}
 		return x.resolve(r.below, key, srt)
 	}
